@@ -35,6 +35,7 @@ pub enum Fam {
     /// Only faults count.
     Mismatch,
     /// form: 0 is_equal, 1 is_prefix, 2 is_suffix, 3 is_equal_raw
+    /// (+4: both operands are windows of hay: y = hay[a0..a0+a1], x = hay[a2..a2+a3])
     EqFn,
     /// form: 0 Pair::new, 1 with_ranker (a[0] id, a[1] seed),
     /// 2 with_indices (a[0], a[1]), 3 vector finder pair()/min_haystack_len
